@@ -19,4 +19,13 @@ MUTATIONS = [
          new="        reduced = [g[0] for g in itertools.groupby(a for a in argmaxes if a != self._blank_ind)]\n        decoded = self.symbol_separator.join(self._letters[ind] for ind in reduced)"),
     dict(prop='C04', name='engine greedy: prepended frame not forced to blank', file='pero_ocr/ocr_engine/pytorch_ocr_engine.py',
          old="        scores_probs[:, -1, 0] = 1000", new="        scores_probs[:, -1, 0] = -1000"),
+    # ---- C05
+    dict(prop='C05', name='skip transition allowed between equal labels when followed by a third', file='pero_ocr/core/force_alignment.py',
+         old="            if elements[ind_elem] != elements[ind_elem+1]:", new="            if elements[ind_elem] != elements[ind_elem+1] or ind_elem + 2 < nb_elements:"),
+    dict(prop='C05', name='blank state reads the last column instead of the blank column', file='pero_ocr/core/force_alignment.py',
+         old="    return array[:, seq]", new="    return array[:, [s if k % 2 else -1 for k, s in enumerate(seq)]]"),
+    dict(prop='C05', name='align_text picks least confident frame', file='pero_ocr/core/force_alignment.py',
+         old="        best_pos = np.argmax(max_probs[seq_positions])", new="        best_pos = np.argmin(max_probs[seq_positions])"),
+    dict(prop='C05', name='infeasibility only detected when every final state is inf and T > 1', file='pero_ocr/core/force_alignment.py',
+         old="    if np.amin(final_frame_cost) == np.inf:", new="    if np.amin(final_frame_cost) == np.inf and neg_logits.shape[0] > nb_states // 2:"),
 ]
